@@ -604,7 +604,17 @@ def replay_term_order(viol):
                     ("g(a)", "f(a,b)", "<"), ("f(a,b)", "g(a)", ">"), ("f(z,a)", "g(a,a)", "<"),
                     ("f(a,b,c)", "f(a,c,b)", "<"), ("f(b,a,a)", "f(a,z,z)", ">")):
         cases.append(("X = %s, Y = %s, compare(O, X, Y), write(O), nl" % (a, b), w))
-    prog = (":- use_module(library(iso_ext)).\nexplode([], []).\nexplode([C|Cs], [C|Ds]) :- explode(Cs, Ds).\n")
+    # variables: ordered by age (address), consistently in both directions and inside compounds
+    cases += [("length(L, 3), L = [A,B,C], compare(O, A, B), write(O), nl", "<"),
+              ("length(L, 3), L = [A,B,C], compare(O, C, A), write(O), nl", ">"),
+              ("length(L, 3), L = [A,B,C], compare(O, B, B), write(O), nl", "="),
+              ("length(L, 3), L = [A,B,C], compare(O, f(A,C), f(A,B)), write(O), nl", ">"),
+              ("length(L, 3), L = [A,B,C], sort([C,A,B], S), ( S == [A,B,C] -> write(sorted) ; write(S) ), nl", "sorted"),
+              ("length(L, 2), L = [A,B], compare(O1, A, B), compare(O2, B, A), write(O1), write(O2), nl", "<>"),
+              ("compare(O, _, 1.0), write(O), nl", "<"), ("compare(O, 1.0, 1), write(O), nl", "<"),
+              ("compare(O, 1, a), write(O), nl", "<"), ("compare(O, a, f(a)), write(O), nl", "<"),
+              ("compare(O, f(a), _), write(O), nl", ">")]
+    prog = (":- use_module(library(iso_ext)).\n:- use_module(library(lists)).\nexplode([], []).\nexplode([C|Cs], [C|Ds]) :- explode(Cs, Ds).\n")
     return run_cases(prog, cases, {"model": viol}, "C13", "term_order", batch=True)
 
 
